@@ -19,7 +19,7 @@ LEVEL_TEXT = ("Generated filter-free queries (all selector kinds, child/descenda
               "an independent reference evaluator. Sampled, not exhaustive.")
 LEVEL_NOTE = "Trusted: the reference evaluator and parser in vlib/ref (self-test + generator/parser triangulation on every case)."
 
-NAMES = ["a", "b", "c", "d", "e", "0", "1", "-1", "a b", "", "'", "é", "\U0001F600", "_x", "A1"]
+NAMES = ["a", "b", "c", "d", "e", "0", "1", "-1", "a b", "", "'", "\u00e9", "\U0001F600", "_x", "A1"]
 
 
 def plan(tier, seed):
